@@ -81,9 +81,9 @@ class Report:
                     self.inconclusive.append({"group": group, "id": o.id, "detail": str(o.detail)[:120]})
         n = 0
         for o in obs:
-            if o.text and n < keep_samples and len(self.samples) < 12:
+            if o.text and n < keep_samples and len(self.samples) < (60 if self.tier == "thorough" else 12):
                 self.samples.append({"group": group, "obligation": o.id, "verdict": o.verdict, "level": o.level,
-                                     "solver_time_s": round(o.time, 4),
+                                     "solver_time_s": round(o.time, 4), "_full": o.text,
                                      "smtlib": o.text if len(o.text) < 6000 else o.text[:3000] + "\n;...truncated...\n" + o.text[-1500:]})
                 n += 1
 
@@ -115,8 +115,38 @@ class Report:
         self.violations.append({"family": family, "what": what, "replay": path, "count": 1})
         return True
 
+    def cross_check(self, timeout=30.0, max_queries=40):
+        """thorough tier: the kept sample queries are re-decided by cvc5; a definite disagreement is a harness error"""
+        from . import solve
+
+        texts = [(s["group"], s["obligation"], s["verdict"], s["_full"]) for s in self.samples if s.get("_full")][:max_queries]
+        if not texts:
+            return
+        res = solve.pool().run([(t[3], timeout, "cvc5", False) for t in texts])
+        agree = dis = und = 0
+        for (g, o, v, _), r in zip(texts, res):
+            z = "unsat" if v == "discharged" else ("sat" if v == "candidate" else None)
+            if r["result"] in ("sat", "unsat") and z is not None:
+                if r["result"] == z:
+                    agree += 1
+                else:
+                    dis += 1
+                    self.errors.append("z3 / cvc5 disagree on %s :: %s (z3 %s, cvc5 %s)" % (g, o, z, r["result"]))
+            else:
+                und += 1
+        self.extra["cvc5_cross_check"] = {"queries": len(texts), "agree": agree, "disagree": dis, "cvc5_undecided": und}
+        self.log("cvc5 cross-check: %d sample queries, agree=%d disagree=%d undecided=%d" % (len(texts), agree, dis, und))
+
     def finish(self, explanation, level="other", extra_cov=None):
         from . import solve
+
+        if self.tier == "thorough":
+            try:
+                self.cross_check()
+            except Exception as e:  # pragma: no cover
+                self.extra["cvc5_cross_check"] = {"error": repr(e)}
+        for smp in self.samples:
+            smp.pop("_full", None)
 
         st = solve.pool().stats if solve._POOL is not None else {"queries": 0, "solver_time": 0.0, "killed": 0}
         self.counts["queries"] = st["queries"]
